@@ -83,12 +83,15 @@ structure IncludeScript where
   system : Bool
 deriving Repr, DecidableEq, Inhabited
 
+/-- Statements.  `function` carries, besides the schema's members, a script-wide identifier `fid` of the definition
+(assigned at the boundary: by the model parser in source order, by the harness for implementation-produced models);
+script function *values* are these identifiers (BareScript functions capture nothing), see `Machine`. -/
 inductive Stmt where
   | expr (name : Option Name) (e : Expr)
   | jump (label : Name) (cond : Option Expr)
   | ret (e : Option Expr)
   | label (l : Name)
-  | function (name : Name) (args : List Name) (lastArgArray : Bool) (isAsync : Bool) (body : List Stmt)
+  | function (fid : Nat) (name : Name) (args : List Name) (lastArgArray : Bool) (isAsync : Bool) (body : List Stmt)
   | include (incs : List IncludeScript)
 deriving Repr, Inhabited
 
